@@ -174,6 +174,31 @@ def _decimal_as_text(decimal_value, precision=DEFAULT_PRECISION):
     return "%.*f" % (precision, decimal_value)
 
 
+def _with_padded_ellipsis(description):
+    """
+    Same as ``description`` but with blanks around each ellipsis outside of
+    quoted text. Starting with Python 3.12 the tokenizer considers an ellipsis
+    character to be part of an adjacent name or number.
+    """
+    result = ""
+    quote = None
+    is_escaped = False
+    for character in description:
+        if quote is None:
+            if character in "\"'":
+                quote = character
+            elif character == ELLIPSIS:
+                character = " " + ELLIPSIS + " "
+        elif is_escaped:
+            is_escaped = False
+        elif character == "\\":
+            is_escaped = True
+        elif character == quote:
+            quote = None
+        result += character
+    return result
+
+
 class Range(object):
     """
     A range that can be used to validate that a value is within it.
@@ -211,7 +236,7 @@ class Range(object):
 
             name_for_code = "range"
             location = None  # TODO: Add location where range is declared.
-            tokens = _tools.tokenize_without_space(self._description)
+            tokens = _tools.tokenize_without_space(_with_padded_ellipsis(self._description))
             end_reached = False
             while not end_reached:
                 lower = None
@@ -222,7 +247,7 @@ class Range(object):
                 while not _tools.is_eof_token(next_token) and not _tools.is_comma_token(next_token):
                     next_type = next_token[0]
                     next_value = next_token[1]
-                    if next_type in (token.NAME, token.NUMBER, token.STRING):
+                    if next_type in (token.NAME, token.NUMBER, token.STRING) and next_value != ELLIPSIS:
                         if next_type == token.NAME:
                             # Symbolic names, e.g. ``tab``.
                             value_as_int = code_for_symbolic_token(name_for_code, next_value, location)
@@ -545,7 +570,7 @@ class DecimalRange(Range):
         else:
             self._description = description.replace("...", ELLIPSIS)
             self._items = []
-            tokens = _tools.tokenize_without_space(self._description)
+            tokens = _tools.tokenize_without_space(_with_padded_ellipsis(self._description))
             end_reached = False
             max_digits_after_dot = 0
             max_digits_before_dot = 0
